@@ -124,7 +124,7 @@ structure Config where
   blacklist : List Bytes
 deriving DecidableEq, Repr
 
-def checkpointKey : Bytes := Generated.checkpointKey
+def checkpointKey : Bytes := Generated.c13CheckpointKey
 
 /-- `strings.HasPrefix(key, prefix)` -/
 def hasPrefix (key pre : Bytes) : Bool := pre.isPrefixOf key
